@@ -72,7 +72,8 @@ def gen_cases(rng, ctx):
             cfg = [cfg[0], 1] + cfg[2:]
         toks = []
         for (tname, k, target, payload, egress), (hname, h) in reqs:
-            toks += [[k, 0], list(target), hdr_tok(h), list(payload)]
+            # (no ICMP forwarder is set up in these sessions: the _icmp multiplexer cannot be made, outcome class 2)
+            toks += [[k, 2 if tname == "icmp" else 0], list(target), hdr_tok(h), list(payload)]
         li = line("c01_session", [cfg + [front]] + toks)
         lm = line("c01_session", [[cfg[0], cfg[1], 2 if cfg[2] == 3 else cfg[2], cfg[3]]] + toks)   # (a case variant is a rejected label)
         cases.append(Case(li, lm, kind=kind + ("" if front == 0 else "-listener" if front == 1 else "-quic"), nontrivial=cfg[0] != 0,
@@ -147,7 +148,9 @@ def judge(case, impl, model, spec, ctx):
             elif status != 407 or challenge != 1:
                 out.append(("violation", "%s: answered %d%s instead of 407 with a Basic challenge" % (what, status, "" if challenge else " without a challenge")))
         else:
-            if status != 200:
+            if tname == "icmp" and status == 502 and not challenge:
+                pass          # past the gate; no ICMP forwarder is set up in these sessions, the multiplexer is refused (C10 judges that)
+            elif status != 200:
                 out.append(("violation", "%s: a request with valid credentials was answered %d" % (what, status)))
             elif egress == "tcp" and tcp != 1:
                 out.append(("violation", "%s: accepted but %d connections reached the destination" % (what, tcp)))
